@@ -110,37 +110,115 @@ func provenance(v ssa.Value, recv ssa.Value) (string, bool) {
 				return provenance(ret.Results[0], c.Params[0])
 			}
 		}
-		return "result of " + shortName(CalleeName(&x.Call)), false
-	case *ssa.Phi:
-		// constants selected by a flag of the record
-		var parts []string
-		allConst := true
-		for _, e := range x.Edges {
-			p, _ := provenance(e, recv)
-			parts = append(parts, p)
-			if _, ok := e.(*ssa.Const); !ok {
-				allConst = false
+		// a module helper that returns one of two constants according to one of its parameters
+		if c := x.Call.StaticCallee(); isModuleFn(c) && len(c.Params) == len(x.Call.Args) {
+			var rets []*ssa.Return
+			Instrs(c, func(in ssa.Instruction) {
+				if ret, ok := in.(*ssa.Return); ok {
+					rets = append(rets, ret)
+				}
+			})
+			if len(rets) == 1 && len(rets[0].Results) == 1 {
+				if ph, ok := rets[0].Results[0].(*ssa.Phi); ok {
+					if s, plain := provenance(ph, nil); strings.HasPrefix(s, "select by ") {
+						return substParams(s, c, x, recv), plain && paramsPlain(c, x, recv)
+					}
+				}
 			}
-		}
-		flag := ""
-		for _, c := range controllingIfs(x.Block().Preds[len(x.Block().Preds)-1]) {
-			fp, _ := provenance(c.If.Cond, recv)
-			flag = fp
-		}
-		if flag == "" {
-			if idom := x.Block().Idom(); idom != nil {
-				if iff, ok := idom.Instrs[len(idom.Instrs)-1].(*ssa.If); ok {
-					flag, _ = provenance(iff.Cond, recv)
+			if len(rets) == 2 && len(rets[0].Results) == 1 && len(rets[1].Results) == 1 {
+				// if P { return A }; return B
+				for k := 0; k < 2; k++ {
+					for _, ci := range controllingIfs(rets[k].Block()) {
+						if other := controllingIfs(rets[1-k].Block()); len(other) > 1 {
+							continue
+						}
+						var tv, fv ssa.Value = rets[k].Results[0], rets[1-k].Results[0]
+						if ci.Branch == 1 {
+							tv, fv = fv, tv
+						}
+						s, plain := selectForm(ci.If.Cond, tv, fv, nil)
+						return substParams(s, c, x, recv), plain && paramsPlain(c, x, recv)
+					}
 				}
 			}
 		}
-		return "select by " + flag + " of {" + strings.Join(parts, ", ") + "}", allConst && strings.HasPrefix(flag, "field ")
+		return "result of " + shortName(CalleeName(&x.Call)), false
+	case *ssa.Phi:
+		// constants selected by a flag of the record: "select by F: true -> A, false -> B"
+		if len(x.Edges) == 2 {
+			if idom := x.Block().Idom(); idom != nil {
+				if iff, ok := idom.Instrs[len(idom.Instrs)-1].(*ssa.If); ok {
+					var tv, fv ssa.Value
+					for i, e := range x.Edges {
+						switch branchOf(iff, x.Block().Preds[i], x.Block()) {
+						case 0:
+							tv = e
+						case 1:
+							fv = e
+						}
+					}
+					if tv != nil && fv != nil {
+						return selectForm(iff.Cond, tv, fv, recv)
+					}
+				}
+			}
+		}
+		return "value " + v.Name(), false
 	case *ssa.BinOp:
 		a, _ := provenance(x.X, recv)
 		b, _ := provenance(x.Y, recv)
 		return "(" + a + " " + x.Op.String() + " " + b + ")", false
 	}
 	return "value " + v.Name(), false
+}
+
+// branchOf: which branch of iff (0 true, 1 false) the edge pred -> blk lies on; -1 when unknown.
+func branchOf(iff *ssa.If, pred, blk *ssa.BasicBlock) int {
+	b := iff.Block()
+	for k := 0; k < 2; k++ {
+		s := b.Succs[k]
+		if pred == b && s == blk {
+			return k
+		}
+		if len(s.Preds) == 1 && (s == pred || s.Dominates(pred)) {
+			return k
+		}
+	}
+	return -1
+}
+
+// selectForm renders a two-way choice canonically, whatever way the code spells it.
+func selectForm(cond, tv, fv ssa.Value, recv ssa.Value) (string, bool) {
+	if u, ok := cond.(*ssa.UnOp); ok && u.Op == token.NOT {
+		cond, tv, fv = u.X, fv, tv
+	}
+	flag, fplain := provenance(cond, recv)
+	if prm, ok := cond.(*ssa.Parameter); ok {
+		flag, fplain = "param "+prm.Name(), true
+	}
+	a, _ := provenance(tv, recv)
+	b, _ := provenance(fv, recv)
+	_, c1 := tv.(*ssa.Const)
+	_, c2 := fv.(*ssa.Const)
+	return "select by " + flag + ": true -> " + a + ", false -> " + b, c1 && c2 && fplain && (strings.HasPrefix(flag, "field ") || strings.HasPrefix(flag, "param "))
+}
+
+// substParams replaces "param x" in a description made inside callee c by what the call passes.
+func substParams(s string, c *ssa.Function, call *ssa.Call, recv ssa.Value) string {
+	for i, prm := range c.Params {
+		a, _ := provenance(call.Call.Args[i], recv)
+		s = strings.ReplaceAll(s, "param "+prm.Name()+":", a+":")
+	}
+	return s
+}
+
+func paramsPlain(c *ssa.Function, call *ssa.Call, recv ssa.Value) bool {
+	for i := range c.Params {
+		if _, plain := provenance(call.Call.Args[i], recv); !plain {
+			return false
+		}
+	}
+	return true
 }
 
 // headerWrites extracts the ordered writes to the header buffer of a message builder.
@@ -430,7 +508,7 @@ func headerPuts(p *Prog, fn *ssa.Function) (buf ssa.Value, slots []codeSlot, pro
 var slotMeaning = []struct{ key, want string }{
 	{"channel number", "field channelIndex"},
 	{"header version", "const 0"},
-	{"data type code", "select by field signed of {const 3, const 2}"},
+	{"data type code", "select by field signed: true -> const 2, false -> const 3"},
 	{"samples before trigger", "field presamples"},
 	{"samples in record", "len(field data)"},
 	{"sample period", "field sampPeriod"},
@@ -851,51 +929,65 @@ func c14R5(p *Prog, r *Report) {
 				return
 			}
 			n++
-			v := ret.Results[0]
-			var ln Poly
-			switch x := v.(type) {
-			case *ssa.Call:
-				if b, isB := x.Call.Value.(*ssa.Builtin); isB && b.Name() == "Slice" {
-					ln = pc.Of(x.Call.Args[1])
-					// the memory viewed is the parameter's own
-					root := x.Call.Args[0]
-					for i := 0; i < 6; i++ {
-						switch y := root.(type) {
-						case *ssa.Convert:
-							root = y.X
-							continue
-						case *ssa.ChangeType:
-							root = y.X
-							continue
-						case *ssa.IndexAddr:
-							root = y.X
-							continue
-						}
-						break
+			// the returned value, or each alternative merged into it
+			var alts []ssa.Value
+			var expand func(v ssa.Value, d int)
+			expand = func(v ssa.Value, d int) {
+				if ph, isPhi := v.(*ssa.Phi); isPhi && d < 4 {
+					for _, e := range ph.Edges {
+						expand(e, d+1)
 					}
-					if scalar {
-						if a, isA := root.(*ssa.Alloc); !isA || a.Comment != prm.Name() {
-							ok, why = false, "the view is not of the parameter's memory"
-						}
-					} else if root != ssa.Value(prm) {
-						ok, why = false, "the view is not of the parameter slice's memory"
-					}
+					return
 				}
-			case *ssa.Slice:
-				ln = pc.lenOf(x)
-				// empty-slice return on the len==0 branch
+				alts = append(alts, v)
 			}
-			if ln == nil {
-				ok, why = false, "return value is not an unsafe.Slice / slice expression"
-				return
-			}
-			// x/1 simplifies
-			ln = mapSyms(ln, func(s string) string { return s })
-			if c, isC := ln.IsConst(); isC && c == 0 && !scalar {
-				return // the empty case
-			}
-			if !ln.Equal(want) && !quoOne(ln, want) {
-				ok, why = false, fmt.Sprintf("returned length is %s, want %s", ln, want)
+			expand(ret.Results[0], 0)
+			for _, v := range alts {
+				var ln Poly
+				switch x := v.(type) {
+				case *ssa.Call:
+					if b, isB := x.Call.Value.(*ssa.Builtin); isB && b.Name() == "Slice" {
+						ln = pc.Of(x.Call.Args[1])
+						// the memory viewed is the parameter's own
+						root := x.Call.Args[0]
+						for i := 0; i < 6; i++ {
+							switch y := root.(type) {
+							case *ssa.Convert:
+								root = y.X
+								continue
+							case *ssa.ChangeType:
+								root = y.X
+								continue
+							case *ssa.IndexAddr:
+								root = y.X
+								continue
+							}
+							break
+						}
+						if scalar {
+							if a, isA := root.(*ssa.Alloc); !isA || a.Comment != prm.Name() {
+								ok, why = false, "the view is not of the parameter's memory"
+							}
+						} else if root != ssa.Value(prm) {
+							ok, why = false, "the view is not of the parameter slice's memory"
+						}
+					}
+				case *ssa.Slice:
+					ln = pc.lenOf(x)
+					// empty-slice return on the len==0 branch
+				}
+				if ln == nil {
+					ok, why = false, "return value is not an unsafe.Slice / slice expression"
+					continue
+				}
+				// x/1 simplifies
+				ln = mapSyms(ln, func(s string) string { return s })
+				if c, isC := ln.IsConst(); isC && c == 0 && !scalar {
+					continue // the empty case
+				}
+				if !ln.Equal(want) && !quoOne(ln, want) {
+					ok, why = false, fmt.Sprintf("returned length is %s, want %s", ln, want)
+				}
 			}
 		})
 		r.Check(ok && n > 0, "C14.R5", "byte view "+FuncName(fn)+" has the exact length", p.Pos(fn.Pos()), "returns "+want.String()+" bytes of its argument's memory", why)
